@@ -1,9 +1,10 @@
 (* C08 -- zero-true-positive results are exactly what the edge case handler prescribes.
    Quantified over EVERY handler table (each of the four scenario entries in {INF,NAN,ZERO,ONE,NONE}
    per metric, any empty-list value) and all instance counts; case analysis on the dispatch, not
-   enumeration.  The pipeline-level statement (which inputs reach this with tp = 0) is C08_pipeline
-   in Props/C01.v's cone; here: the result object. *)
-From Pan Require Import Base.Common Base.Sx Model.MetricTable Model.EdgeCase Model.Result Proofs.ResultFacts.
+   enumeration.  C08_pipeline_zero_instances lifts it to the pipeline for inputs with an empty side; the
+   'instances on both sides, none matched' scenario reaches C08_zero_tp with tp = 0 by C02_counts_and_lists. *)
+From Pan Require Import Base.Common Base.Sx Model.MetricTable Model.Metrics Model.EdgeCase Model.Result Model.Pipeline
+  Proofs.ResultFacts Proofs.PipelineFacts.
 Open Scope Z_scope.
 
 (* the four scenarios are exhaustive and mutually exclusive on (num_pred, num_ref) *)
@@ -32,6 +33,18 @@ Theorem C08_handler_irrelevant : forall h h' np nr tp lists,
   panoptica_result {| r_np := np; r_nr := nr; r_tp := tp; r_lists := lists; r_handler := h |} =
   panoptica_result {| r_np := np; r_nr := nr; r_tp := tp; r_lists := lists; r_handler := h' |}.
 Proof. exact handler_irrelevant. Qed.
+
+(* through the whole pipeline: an input with no predicted or no reference instance (any input type that reaches it as
+   instance maps, any matcher/threshold/decision metric) never raises and reports exactly the handler's prescription *)
+Theorem C08_pipeline_zero_instances : forall x c a,
+  (n_pred_inst a = 0 \/ n_ref_inst a = 0) ->
+  (forall m, In m (c_ems c) -> exists mh, lookup_m m (h_table (c_handler c)) = Some mh) ->
+  exists s r, classify (n_pred_inst a) (n_ref_inst a) = Some s /\ pipeline x c a = Ok r /\
+    o_tp r = 0 /\ o_fp r = n_pred_inst a /\ o_fn r = n_ref_inst a /\
+    (forall mr, In mr (o_metrics r) -> exists mh, lookup_m (m_metric mr) (h_table (c_handler c)) = Some mh /\
+        m_sq mr = ecr_value (entry mh s) /\ m_var mr = ecr_value (h_std (c_handler c)) /\ m_all mr = []) /\
+    (forall m, In m (c_ems c) -> exists mr, In mr (o_metrics r) /\ m_metric mr = m).
+Proof. exact pipeline_zero_instances_result. Qed.
 
 (* non-vacuity: an injective table on a NORMAL zero-TP input *)
 Example C08_nonvacuous :
